@@ -175,6 +175,7 @@ def onsurface(eq, mesh, spec):
             "name": r.name, "slice": (sl[0], sl[1]), "psi_vals": np.array(r.psi_vals, dtype=float), "radialIndex": r.radialIndex,
             "pinned": {"ll": er.xPointsAtStart[r.radialIndex] is not None, "lr": er.xPointsAtStart[r.radialIndex + 1] is not None,
                        "ul": er.xPointsAtEnd[r.radialIndex] is not None, "ur": er.xPointsAtEnd[r.radialIndex + 1] is not None},
+            "starts_at_xpoint": any(x is not None for x in er.xPointsAtStart), "ends_at_xpoint": any(x is not None for x in er.xPointsAtEnd),
             "contour_psival": [float(c.psival) for c in r.contours],
             "contour_err": [float(max(abs(float(eq.psi(p.R, p.Z)) - c.psival) for p in c)) for c in r.contours],
         }
